@@ -261,6 +261,9 @@ def prop_C04(repo, tier):
     add_sites(res, results, 'copy-mutation', 'SPLICE')
     add_findings(res, results, {'PAYLOAD-PURE', 'PAYLOAD-ALL', 'MSG-READONLY', 'SPLICE'})
     add_findings(res, results, {'NO-SHARE'}, want=lambda c, f: 'stays referenced by the message object' in f['detail'], as_rule=lambda f: 'PAYLOAD-PURE')
+    # a metadata block located by tag alone (schema not compared, or compared as None == None) can be a block this very message
+    # inserted a moment ago: a carried metadata element is then overwritten by the next one
+    add_findings(res, results, {'META-SCHEMA'}, as_rule=lambda f: 'PAYLOAD-ALL')
     # a loop over carried elements that is left early (return / break after a warned element) never delivers the remaining ones
     add_findings(res, results, {'NO-EARLY-EXIT'}, want=lambda c, f: schema.ROLES[c][0] in ('INSERT', 'APPEND', 'REPLACE', 'SEND', 'META'),
                  as_rule=lambda f: 'PAYLOAD-ALL')
@@ -808,6 +811,11 @@ def prop_C07(repo, tier):
             ops = {tuple(map(tuple, o['rootops'])) for o in absent_ret}
             ok = ops == {(('append', marker, 'NEW'),)}
             res.add('END-FRAME', 'RunningOrderEnd.merge', 'operations on the root', ok, '' if ok else f'root operations: {sorted(ops)}')
+            # "records the roDelete": the record holds a deep copy of the message's own roDelete element, nothing re-built
+            contents = {tuple(map(tuple, o.get('marker_content', []))) for o in absent_ret}
+            okc = bool(contents) and all(len(c) == 1 and c[0][0] == 'COPY' and c[0][2] is True for c in contents)
+            res.add('MARKER-AGREE', 'RunningOrderEnd.merge', 'the record holds a deep copy of the message\'s roDelete element', okc,
+                    '' if okc else f'the completion record contains {sorted(contents)} (provenance, tag, deep copy of the message element): not the roDelete that was received')
         else:
             ok = all(o.get('completed_after') == ['False'] for o in absent_ret)
             res.add('NEVER-COMPLETED', f'{cname}.merge', 'RunningOrder.completed after the merge', ok,
@@ -889,6 +897,9 @@ def prop_C14(repo, tier):
     res.add('NO-HIDDEN-STATE', 'merges', 'attribute stores on MOS objects during a merge', True)
     add_findings(res, collect_merge(res, repo), {'NO-HIDDEN-STATE'})
     guard_ = sorted({t for r in collect_merge(res, repo).values() for t in r.get('guard_tags', [])})
+    if len(guard_) != 1:
+        # "at most one completion record" and "the flag survives serialisation" are judged against the marker the guard probes
+        res.error(f'ROOT-WRITERS: expected exactly one completion-marker probe on the root in RunningOrder.__add__, found {guard_} (idiom not recognised)')
     if len(guard_) == 1:
         from . import rules_null as _rn
         res.rules['COMPLETED-FROM-DOCUMENT'] = ('RunningOrder.completed / MosCollection.completed evaluated on objects freshly constructed over a document are True exactly '
@@ -905,6 +916,7 @@ def prop_C14(repo, tier):
             res.error(f'COMPLETED-FROM-DOCUMENT: {e}')
     rules_shape.serializer(res, prog)
     rules_shape.no_shared_memo(res, prog)
+    rules_shape.no_bypass(res, prog)          # "at most one completion record" holds because every merge goes through the guard in __add__
     # the reading side of the round trip: a node kind that one constructor keeps (comments, processing instructions) and the
     # constructor used for reading back drops cannot read back identically, so every constructor parses the default way
     res.rules['SAME-PARSER'] = ('every MosFile constructor, interpreted, reaches its parse primitive without parser options: what from_file / from_s3 put into a '
@@ -1064,6 +1076,14 @@ def prop_C11(repo, tier):
     prog = program(repo)
     rules_pred.no_assert(res, prog)
     rules_pred.accept_table(res, prog)
+    # "unless incompleteness is allowed" is the caller's decision: every constructor hands its allow_incomplete on unchanged
+    from . import rules_shape as _rs11
+    tmp11 = CheckResult('C11', tier)
+    _rs11.sorted_ctors(tmp11, prog)
+    res.rules['CTOR-ARGS'] = 'each MosCollection.from_* (interpreted) forwards allow_incomplete to cls(...) unchanged'
+    for e in tmp11.errors:
+        res.error(e)
+    res.obligations.extend(o for o in tmp11.obligations if o.rule == 'CTOR-ARGS' and 'allow_incomplete' in o.construct)
     res.floors = {'ACCEPT-TABLE': 60, 'POST-STATE': 2, 'NO-ASSERT': 1}
     res.explanation = (
         'Static analysis: MosCollection(readers, allow_incomplete) is run by the abstract interpreter on one exact representative reader list per point of '
